@@ -9,7 +9,8 @@
 // Oracle: verif/space's own CBOR reader re-parses each variant and an own CDDL-derived
 // locator (layout.go) names the byte range of every component; for every variant the era
 // decoder accepts, every range the two offset extractors report must be inside the block
-// and equal to the located range of the corresponding component.
+// and equal to the located range of the corresponding component, and every located
+// component must have a reported range (see meta.json for the two documented exemptions).
 package main
 
 import (
@@ -102,7 +103,7 @@ func shift(r Rng, d int) Rng { return Rng{r.S + d, r.E + d} }
 // root mismatches (a component that is only displaced because its enclosing body /
 // witness set is displaced by the same amount is attributed to the enclosing component),
 // the number of ranges compared, and observation counters.
-func compare(block []byte, lay *Layout, off *common.BlockTransactionOffsets) (mm []mismatch, ranges int, obs map[string]int) {
+func compare(fnName string, block []byte, lay *Layout, off *common.BlockTransactionOffsets) (mm []mismatch, ranges int, obs map[string]int) {
 	obs = map[string]int{}
 	curTx := -1
 	add := func(comp, format string, a ...any) {
@@ -124,7 +125,13 @@ func compare(block []byte, lay *Layout, off *common.BlockTransactionOffsets) (mm
 		add("txcount", "%d transaction locations reported, block has %d transactions", nRep, nExp)
 	}
 	if nRep < nExp {
-		obs["unreported:transactions"] += nExp - nRep
+		if fnName == "NewBlockFromCborWithOffsets" && lay.Family == "dijkstra" && nRep == 0 {
+			// documented: the streaming extractor returns an empty list for blocks with fewer
+			// than 3 top-level elements (observation, FINDINGS.md)
+			obs["unreported:transactions(dijkstra, streaming extractor)"] += nExp - nRep
+		} else {
+			add("txcount!missing", "%d transaction locations reported, block has %d transactions", nRep, nExp)
+		}
 	}
 	for i := 0; i < nRep && i < nExp; i++ {
 		rep, exp := off.Transactions[i], lay.Txs[i]
@@ -147,7 +154,7 @@ func compare(block []byte, lay *Layout, off *common.BlockTransactionOffsets) (mm
 		// metadata: a zero range is documented as "no metadata"
 		if rep.Metadata == (common.ByteRange{}) {
 			if exp.Meta != nil {
-				obs["unreported:metadata"]++
+				add("metadata!missing", "tx %d has auxiliary data at %v (key %d of the auxiliary-data map / aux item of the transaction) but the reported metadata range is {0,0} (= no metadata)", i, *exp.Meta, i)
 			}
 		} else {
 			ranges++
@@ -163,7 +170,7 @@ func compare(block []byte, lay *Layout, off *common.BlockTransactionOffsets) (mm
 			add("output", "tx %d: %d output locations reported, body has %d outputs", i, len(rep.Outputs), len(exp.Outputs))
 		}
 		if len(rep.Outputs) < len(exp.Outputs) {
-			obs["unreported:outputs"] += len(exp.Outputs) - len(rep.Outputs)
+			add("output!missing", "tx %d: %d output locations reported, body has %d outputs", i, len(rep.Outputs), len(exp.Outputs))
 		}
 		for j := 0; j < len(rep.Outputs) && j < len(exp.Outputs); j++ {
 			ranges++
@@ -204,8 +211,13 @@ func compare(block []byte, lay *Layout, off *common.BlockTransactionOffsets) (mm
 				oob(r)
 			}
 		}
-		if len(rep.Datums) < distinctHashes(block, exp.Datums) {
-			obs["unreported:datums"] += distinctHashes(block, exp.Datums) - len(rep.Datums)
+		if nd := distinctHashes(block, exp.Datums); len(rep.Datums) < nd {
+			if exp.DatumsTagged {
+				// documented: datum lists in the #6.258 set encoding are not reported (observation)
+				obs["unreported:datums(#6.258 set)"] += nd - len(rep.Datums)
+			} else {
+				add("datum!missing", "tx %d: %d datum locations reported, witness set has %d distinct datums at %v", i, len(rep.Datums), nd, exp.Datums)
+			}
 		}
 		// redeemers: (tag,index) -> range of the data element
 		for _, k := range sortedKeys(rep.Redeemers) {
@@ -232,8 +244,12 @@ func compare(block []byte, lay *Layout, off *common.BlockTransactionOffsets) (mm
 				oob(r)
 			}
 		}
-		if len(rep.Redeemers) < len(exp.Redeemers) {
-			obs["unreported:redeemers"] += len(exp.Redeemers) - len(rep.Redeemers)
+		rk := map[[2]uint64]bool{}
+		for _, e := range exp.Redeemers {
+			rk[[2]uint64{e.Tag & 0xff, e.Index & 0xffffffff}] = true
+		}
+		if len(rep.Redeemers) < len(rk) {
+			add("redeemer!missing", "tx %d: %d redeemer locations reported, witness set has %d distinct redeemer keys", i, len(rep.Redeemers), len(rk))
 		}
 		// scripts: hash -> range of the script element
 		for _, h := range sortedKeys(rep.Scripts) {
@@ -276,8 +292,8 @@ func compare(block []byte, lay *Layout, off *common.BlockTransactionOffsets) (mm
 				oob(r)
 			}
 		}
-		if len(rep.Scripts) < distinctScripts(block, exp.Scripts) {
-			obs["unreported:scripts"] += distinctScripts(block, exp.Scripts) - len(rep.Scripts)
+		if ns := distinctScripts(block, exp.Scripts); len(rep.Scripts) < ns {
+			add("script!missing", "tx %d: %d script locations reported, witness set has %d distinct scripts", i, len(rep.Scripts), ns)
 		}
 	}
 	return
@@ -418,7 +434,7 @@ func handle(v *Variant) {
 			gaveUp++
 			continue
 		}
-		mm, ranges, obs := compare(v.Bytes, lay, r.off)
+		mm, ranges, obs := compare(e.name, v.Bytes, lay, r.off)
 		count("ranges_compared", int64(ranges))
 		for k, n := range obs {
 			count(e.name+":"+k, int64(n))
@@ -494,6 +510,10 @@ func report(fn, comp string, v *Variant, what, feat string, extra map[string]any
 
 func emit(fn, comp, fam, class string, v *Variant, what string, extra map[string]any) {
 	key := fmt.Sprintf("%s.%s|%s|%s", fnShort(fn), comp, fam, class)
+	if base, ok := strings.CutSuffix(comp, "!missing"); ok {
+		// the component exists in the decoded block but no range is reported for it
+		key = fmt.Sprintf("%s.%s|%s|%s|missing", fnShort(fn), base, fam, class)
+	}
 	if extra == nil {
 		extra = map[string]any{}
 	}
@@ -562,7 +582,7 @@ func main() {
 		spineTx, repeatMax = 2, 2
 	}
 	if !c.Thorough() {
-		d1Shallow = map[string]bool{"allegra": true, "mary": true, "babbage": true}
+		d1Shallow = map[string]bool{"allegra": true, "mary": true, "babbage": true, "conway": true}
 	}
 	var plans []*fxPlan
 	for i := range fixtures {
@@ -581,7 +601,7 @@ func main() {
 		if err != nil {
 			c.Internal("%v", err)
 		}
-		if !c.Thorough() && (strings.HasPrefix(fixtures[i].Name, "synth-") || d1Shallow[fixtures[i].Name]) {
+		if n := fixtures[i].Name; !c.Thorough() && (strings.HasPrefix(n, "synth-") || n == "allegra" || n == "mary" || n == "babbage") {
 			p.nSpine = 0 // quick tier: pairs only on the smaller real blocks
 		}
 		plans = append(plans, p)
@@ -589,7 +609,7 @@ func main() {
 	if len(plans) < 15 {
 		c.Note(fmt.Sprintf("only %d fixtures could be read from the repository", len(plans)))
 	}
-	deadline := c.Deadline(45*time.Second, 8*time.Minute)
+	deadline := c.Deadline(25*time.Second, 8*time.Minute)
 	if d, err := time.ParseDuration(os.Getenv("VERIF_DEADLINE")); err == nil && d > 0 { // debugging aid (overloaded machine)
 		deadline = time.Now().Add(d)
 	}
@@ -622,7 +642,7 @@ func main() {
 	stopProf()
 	c.Assume("blake2b (golang.org/x/crypto) is trusted")
 	c.Assume("a variant counts as accepted when ledger.NewBlockFromCbor accepts it with the default configuration or with the documented SkipBodyHashValidation option (re-encoding a body segment necessarily changes the body hash the header commits to)")
-	c.Assume("a component the extractor does not report at all (zero range, shorter list, absent map key) is counted as 'unreported', not as a violation: the property constrains the ranges that are reported")
+	c.Assume("completeness: a located component without a reported range (zero metadata range, shorter output list, absent datum/redeemer/script entry, missing transaction location) is a violation ('|missing'), except the documented non-reporting counted as observations: the streaming extractor's empty list for Dijkstra blocks, datum lists in the #6.258 set encoding, and an extractor that returns an error")
 	c.Finish()
 }
 
